@@ -132,7 +132,7 @@ func runC18(c *h.Ctx) {
 		cs.Info("idl", cc.idl)
 		cs.Info("doc", cc.doc)
 		cs.Info("opts", fmt.Sprintf("%+v", cc.opts))
-		cv := j2t.NewBinaryConv(cc.opts)
+		cv := newJ2T(cs, cc.opts)
 		out, err := cv.Do(context.Background(), cc.desc, []byte(cc.doc))
 		res := ""
 		switch {
